@@ -31,7 +31,7 @@ structure VKey (Pt : Type) where
   k : Nat
   fixed : List Pt
   perm : List Pt
-  deriving Repr
+  deriving Repr, DecidableEq
 
 /-- The `while (1 << extended_k) < (1 << k) * quotient_poly_degree` loop (64 iterations suffice
 for `k ≤ 255` only in as far as the Rust loop itself terminates; `fuel` is explicit). -/
@@ -89,7 +89,7 @@ structure MVKey (Pt : Type) where
   maxBitLen : Nat
   nbPublicInputs : Nat
   vk : VKey Pt
-  deriving Repr
+  deriving Repr, DecidableEq
 
 /-- `MidnightVK::read`; `shape a` is the constraint system `ZkStdLib::configure` builds for `a`. -/
 def decodeMVKWith {Pt : Type} (dec : Bytes → Except Err Pt) (size : Nat) (c : ColConsts) (shape : Arch → CsShape)
